@@ -3,7 +3,10 @@
    the worker processes of windpyutils/parallel/pools.py (kind = true) and parallel/maps.py + workers.py (kind = false);
    a schedule is an arbitrary list of events, an event that is not enabled being a stutter.  The mapped function is
    uninterpreted (a result chunk is represented by the chunk).  A history is a list of calls (input, chunk size) on
-   one FunctorMap inside one `with` block, resp. a sequence of mul_p_map calls sharing the class-level queues. *)
+   one FunctorMap inside one `with` block, resp. a sequence of mul_p_map calls sharing the class-level queues.
+   A worker process that has left its loop exits (and can be joined) only when at most m_pipe results are waiting in the
+   results queue - the bounded pipe behind multiprocessing.Queue; m_pipe is arbitrary in every theorem (None = no bound,
+   Some 0 = only when the queue has been read empty). *)
 From Coq Require Import ZArith List Bool Arith.
 From WPU Require Import Common.Val Model.Pool Model.FMap Proofs.FMapP.
 Import ListNotations.
@@ -31,6 +34,15 @@ Theorem C05_no_deadlock : forall cfg hist sched, mcfg_ok cfg -> Forall mact_ok h
 Proof. exact fmap_no_deadlock. Qed.
 Print Assumptions C05_no_deadlock.
 
+(* why the bounded pipe never bites: whenever the main thread is joining the worker processes, every result has been
+   collected - nothing is waiting in the results queue *)
+Theorem C05_joins_after_collecting : forall cfg hist sched k, mcfg_ok cfg -> Forall mact_ok hist ->
+  let s := mrun cfg (minit cfg hist) sched in ms_main s = MmJoin k -> ms_resq s = [].
+Proof.
+  intros cfg hist sched k Ok Hh s M. destruct (mall_run cfg hist sched Ok Hh) as [MI L _]. exact (join_resq_nil cfg hist s k MI L M).
+Qed.
+Print Assumptions C05_joins_after_collecting.
+
 (* every step decreases the measure *)
 Theorem C05_measure : forall cfg hist sched e s', mcfg_ok cfg -> Forall mact_ok hist ->
   let s := mrun cfg (minit cfg hist) sched in mstep cfg s e = Some s' -> mmu cfg s' < mmu cfg s.
@@ -50,9 +62,9 @@ Theorem C05_scheduler_exists : forall cfg s, (exists e, menabled cfg s e) -> mst
 Proof. exact mpick_first_enabled. Qed.
 Print Assumptions C05_scheduler_exists.
 
-(* non-vacuity: data shorter than the worker count, an empty call, chunk sizes 1..3, both kinds *)
+(* non-vacuity: data shorter than the worker count, an empty call, chunk sizes 1..3, both kinds, tight pipes *)
 Example C05_functor_map :
-  let cfg := mkMCfg 3 (Some 3) true in
+  let cfg := mkMCfg 3 (Some 3) true (Some 0) in
   let hist := [([1; 2]%Z, 1); ([], 2); ([3; 4; 5; 6; 7]%Z, 3)] in
   let s := mdrive cfg (mpick_first cfg) (mmu cfg (minit cfg hist)) (minit cfg hist) in
   mcfg_ok cfg /\ Forall mact_ok hist /\ ms_main s = MmDone /\ ms_done s = [[1; 2]; []; [3; 4; 5; 6; 7]]%Z.
@@ -60,7 +72,7 @@ Proof.
   cbv zeta. split; [split; [simpl; auto | intros c H; injection H as <-; auto]|]. split; [repeat constructor|]. vm_compute. split; reflexivity.
 Qed.
 Example C05_mul_p_map :
-  let cfg := mkMCfg 2 (Some 1) false in
+  let cfg := mkMCfg 2 (Some 1) false (Some 1) in
   let hist := [([5; 6; 7]%Z, 1); ([], 1); ([8]%Z, 1)] in
   let s := mdrive cfg (mpick_first cfg) (mmu cfg (minit cfg hist)) (minit cfg hist) in
   mcfg_ok cfg /\ Forall mact_ok hist /\ ms_main s = MmDone /\ ms_done s = [[5; 6; 7]; []; [8]]%Z.
